@@ -166,6 +166,11 @@ func (x *Explorer) Lt(a, b *Term) *Term {
 
 // lower / upper: cheap constant bounds of integer terms.
 func (x *Explorer) lower(t *Term) (int64, bool) {
+	if k, ok := x.known[t.ID]; ok && k != nil {
+		if c, isC := k.Int64(); isC {
+			return c, true
+		}
+	}
 	if b, ok := x.bounds[t.ID]; ok && b.hasLo {
 		if s, ok2 := x.lowerS(t); ok2 && s > b.lo {
 			return s, true
@@ -270,6 +275,11 @@ func (x *Explorer) lowerS(t *Term) (int64, bool) {
 }
 
 func (x *Explorer) upper(t *Term) (int64, bool) {
+	if k, ok := x.known[t.ID]; ok && k != nil {
+		if c, isC := k.Int64(); isC {
+			return c, true
+		}
+	}
 	if b, ok := x.bounds[t.ID]; ok && b.hasHi {
 		if s, ok2 := x.upperS(t); ok2 && s < b.hi {
 			return s, true
